@@ -182,7 +182,7 @@ func verifRunCase(idx int, c verifCase, hs map[string]func()) (status string) {
 	}()
 	verifMu.Lock()
 	defer verifMu.Unlock()
-	if status == "ok" && len(verifFailed) > 0 {
+	if (status == "ok" || status == "assume-false") && len(verifFailed) > 0 { // assumptions are not retroactive
 		status = "assert-fail"
 	}
 	return status
